@@ -22,6 +22,8 @@ def run(ctx, sess):
     ctx.rule('C11.3', 'offset symmetry: the value added to the requested timestamp before the seek is the value subtracted from each delivered timestamp')
     ctx.rule('C11.4', 'iteration: from the seek point follow item_next until 0, verify the tag of every chunk, deliver the chunk just read')
     ctx.rule('C11.5', 'the index entry recorded for an annotation carries its timestamp and the offset of its chunk')
+    ctx.rule('C11.7', 'sample-id frames: the signal\'s sample_id_offset is applied exactly once to each value (added to an api id, subtracted from a file id) and no compare mixes an api-relative id with a file id (forward dataflow over every reader function that mentions the offset)')
+    ctx.rule('C11.8', 'nothing indexed is dropped: the time-series commit returns without writing its INDEX only when the index holds no entry (or its buffers do not exist)')
     ctx.rule('C11.6', 'INDEX is immediately followed by its SUMMARY in the time-series writer')
     w = P.fn('jls_wr_annotation')
     r = P.fn('jls_core_annotations')
@@ -148,3 +150,73 @@ def run(ctx, sess):
         def floor(self, *a):
             pass
     adjacency_rule(Sub(ctx), P)
+    from .frames import frames_rule
+    frames_rule(ctx, P, 'C11.7')
+    pending_index_rule(ctx, P, 'C11.8', ('src/wr_ts.c',))
+
+
+def pending_index_rule(ctx, P, rule, files):
+    """an index that holds entries is written, unless its single entry is the first chunk of the level below
+    (reachable through that level's own track head)"""
+    from ..graph import cond_facts
+    n = 0
+    for fn in P.all_functions():
+        if fn.file not in files:
+            continue
+        # functions that write an INDEX chunk together with its SUMMARY
+        idx_calls = [c for c in fn.calls() if c.callee == 'jls_core_wr_index' or
+                     (c.callee in P.functions and P.functions[c.callee].file == fn.file and
+                      any(c2.callee == 'jls_core_wr_index' for c2 in P.functions[c.callee].calls()) and
+                      not any(c2.callee == 'jls_core_wr_summary' for c2 in P.functions[c.callee].calls()))]
+        if not idx_calls or not any(c.callee == 'jls_core_wr_summary' for c in fn.calls()):
+            continue
+        n += 1
+        ctx.saw(fn, 1)
+        empty_edges, single_edges, nohead_edges, null_edges = set(), set(), set(), set()
+        for b in fn.blocks.values():
+            if b.cond is None or len(b.succs) < 2:
+                continue
+            for label in ('T', 'F'):
+                for (var, kind, c) in cond_facts(fn, b.cond, label):
+                    v = str(var)
+                    if 'index' in v and v.endswith('entry_count'):
+                        if kind == 'eq' and c == 0:
+                            empty_edges.add((b.id, label))
+                        if (kind == 'le' and c <= 1) or (kind == 'lt' and c <= 2) or (kind == 'eq' and c in (0, 1)):
+                            single_edges.add((b.id, label))
+                    if 'head_offsets' in v and kind == 'eq' and c == 0:
+                        nohead_edges.add((b.id, label))
+                    if kind == 'eq' and c == 0 and not v.endswith('entry_count') and 'head_offsets' not in v and ('index' in v or 'summary' in v or 'level' in v or v == 'dst'):
+                        null_edges.add((b.id, label))
+            # compares the fact extractor does not normalise:  x <= 1,  0 == y
+            e = strip_casts(b.cond)
+            if e.get('op') == 'bin' and e['o'] in ('<=', '<', '==', '>', '>='):
+                l, r = e['k']
+                for x, y, flip in ((l, r, False), (r, l, True)):
+                    cy = const_of(y)
+                    xs = show(x)
+                    if cy is None:
+                        continue
+                    o = e['o']
+                    if flip:
+                        o = {'<': '>', '>': '<', '<=': '>=', '>=': '<=', '==': '=='}[o]
+                    if 'index' in xs and xs.endswith('entry_count'):
+                        if (o == '<=' and cy <= 1) or (o == '<' and cy <= 2):
+                            single_edges.add((b.id, 'T'))
+                        if (o == '>' and cy <= 1) or (o == '>=' and cy <= 2):
+                            single_edges.add((b.id, 'F'))
+                    if 'head_offsets' in xs and o == '==' and cy == 0:
+                        nohead_edges.add((b.id, 'T'))
+        wrote = set(id(c) for c in idx_calls)
+
+        def search(forbidden):
+            return find_path(fn, 'entry', lambda ev, facts: 'stop' if id(ev) in wrote else
+                             ('target' if (ev.k == 'ret' and ret_class(fn, ev, facts) in ('zero', 'unknown')) else None),
+                             edge_ok=lambda b, s, label: (b.id, label) not in forbidden)
+        # a success return without the write must have seen: index empty / buffers missing, or (single entry and no chunk of this level on disk)
+        w = search(empty_edges | null_edges | single_edges) or search(empty_edges | null_edges | nohead_edges)
+        ctx.ob(rule, w is None and bool(empty_edges), fn.name, 'pending index entries are written', fn.where(),
+               'returns without writing only when the index is empty%s' % (' or its single entry is the first chunk of the level below' if single_edges and nohead_edges else '') if (w is None and empty_edges) else
+               'a success return leaves index entries unwritten (they are the only reference to chunks of the level below): those chunks cannot be reached by a reader',
+               w.render() if w else None)
+    ctx.floor('index+summary writers', n, 1)
